@@ -31,7 +31,7 @@ ASSUMPTIONS = [
     "domain of the model: no flatten_help, override_usage / override_help, Arg::group on the argument side, subcommand visible aliases (the generators stay inside it); argument groups, requires, the subcommand usage forms, next_help_heading, subcommand_help_heading, subcommand_value_name, custom help templates (tag dispatch; the texts of name / bin / version / author / before- / after-help are not modelled), env, defaults, (short) aliases, possible values in spec_vals and global arguments are modelled",
     "refs_ok (hypothesis of C12_padding_safe, C12_render_total, C12_usage_*, C12_template_total): group ids unique, group members are arguments, every id named by a requires rule exists -- what debug_asserts.rs checks before any rendering",
     "the generators keep `hide`n arguments out of groups and out of requires targets: a hidden member of a listed group is printed by format_group (observation C12_usage_hidden_group_member_shown, replayed on the real crate)",
-    "the help-level theorems on the parser model (C12_help_flag_*_level) quantify over chains of subcommand names/aliases directly followed by the help flag (class help_chain); their hypothesis long_help_at/short_help_at (the level's --help / -h is a value-less Help-action flag) is checked by computation on the example, not derived from the build",
+    "the help-level theorems on the parser model (C12_help_flag_*_level_gen) quantify over chains of subcommand names/aliases directly followed by the help flag (class help_chain); hypotheses: the level at the end of the chain contains the generated help argument (C12_build_has_help: the build puts it there when the flag is not disabled) and no subcommand of that level answers to the token `--help` / `-h`",
     "C12_padding_safe assumes every rendered left column is at most 65 000 columns wide (observation N: core::fmt limits run-time widths to u16 on rustc >= 1.87)",
     "names are ASCII in generated cases (columns = characters = bytes)",
 ]
@@ -1220,6 +1220,6 @@ LEVEL_NOTE = ("Trusted: Coq kernel, extraction, OCaml driver, Rust harness, gene
               "(swept each run), textwrap (C20) and unicode-width are modelled or abstract; the model's domain excludes flatten_help, "
               "usage / help overrides, subcommand aliases in help, the texts of the template tags name / bin / version / author / before- / "
               "after-help, non-ASCII names.  Differential / oracle only: byte-exact layout and wrapped text, help chains with flags or values "
-              "between the names; the hypothesis long_help_at / short_help_at of the help-flag theorems is still checked by computation (it "
-              "cannot follow from validity alone: a subcommand may be named `--help`).  Observations (not defect fixes): a default value naming "
+              "between the names.  The help-flag theorems no longer assume long_help_at / short_help_at: they are derived from validity for a level "
+              "that contains the generated help argument, with the necessary side condition that no subcommand answers to `--help` / `-h`.  Observations (not defect fixes): a default value naming "
               "a hidden possible value is printed in [default: ..]; a hidden member of a listed group is printed in the usage line <a|b>.")
